@@ -986,6 +986,8 @@ def u_tree(draw, depth, free, fixed, ctx=None, root=False, p_free=55):
                 ch.append(rec(tag))
         return [tag, ch]
     if tag == "Quotient":
+        # the three division-like nodes share one handler in the unifier
+        tag = draw(st.sampled_from(("Quotient", "Quotient", "FloorDiv", "Remainder")))
         return [tag, rec(), rec()]
     if tag == "Power":
         k = draw(st.integers(0, 3))
@@ -1158,6 +1160,9 @@ def tame(draw, pattern, free, fixed):
     return fix(pattern)
 
 
+DIVKINDS = ("Quotient", "FloorDiv", "Remainder")
+
+
 @st.composite
 def perturbed(draw, target):
     """An instance that is off by one detail: a leaf, a comparison operator
@@ -1165,9 +1170,25 @@ def perturbed(draw, target):
     cmps = [x for x in subspecs(target) if x[0] == "Comparison"]
     lks = [x for x in subspecs(target) if x[0] == "Lookup"]
     acs = [x for x in subspecs(target) if x[0] in ("Sum", "Product")]
+    divs = [x for x in subspecs(target) if x[0] in DIVKINDS]
     kinds = ["leaf", "leaf"] + (["cmp", "cmp"] if cmps else []) + (
-        ["lookup", "lookup"] if lks else []) + (["grow", "grow", "drop"] if acs else [])
+        ["lookup", "lookup"] if lks else []) + (["grow", "grow", "drop"] if acs else []) + (
+        ["divkind"] * 3 if divs else [])
     kind = draw(st.sampled_from(kinds))
+    if kind == "divkind":
+        # the same operands under another of / // %
+        k = draw(st.integers(0, len(divs) - 1))
+        cnt = [0]
+
+        def g3(node):
+            if node[0] in DIVKINDS:
+                i = cnt[0]
+                cnt[0] += 1
+                new_tag = draw(st.sampled_from([t for t in DIVKINDS if t != node[0]])) \
+                    if i == k else node[0]
+                return [[new_tag, spec_subst(node[1], g3), spec_subst(node[2], g3)]]
+            return None
+        return spec_subst(target, g3)
     if kind in ("grow", "drop"):
         # one operand more / fewer in one sum or product
         k = draw(st.integers(0, len(acs) - 1))
@@ -1253,6 +1274,17 @@ def unify_case(draw):
             occ = [i for i, n in enumerate(_pattern_vars(pattern)) if n in binds]
             hit = draw(st.sampled_from(occ)) if occ else -1
             other = draw(u_value(1))
+            if occ and draw(st.integers(0, 2)) == 0:
+                # ... one that differs only in -1 / -2 (equal hashes in CPython, and so
+                # for every node built around them)
+                nm = _pattern_vars(pattern)[hit]
+                v0 = draw(u_value(0))
+                mk = draw(st.sampled_from((
+                    lambda c: c, lambda c: ["Product", [c, v0]], lambda c: ["Power", v0, c],
+                    lambda c: ["Sum", [v0, ["Product", [c, V("w")]]]],
+                    lambda c: ["Call", V("f"), [c]])))
+                binds[nm] = mk(C(-1))
+                other = mk(C(-2))
             counter = [0]
 
             def f(node):
